@@ -98,12 +98,6 @@ private theorem matches_shorthand (fl : Flags) (hnl : fl.noLocation = false) (se
   rw [checkAll_cons]
   exact ⟨_, _, (check_tok ..).2 ⟨_, rfl, rfl, rfl⟩, by rw [checkAll_nil]⟩
 
-theorem selectionV_node (sel : Selection) : ∃ is, selectionV sel = .node sel.loc is := by
-  cases sel <;> exact ⟨_, rfl⟩
-
-theorem selectionSetV_node (ss : SelectionSet) : ∃ is, selectionSetV ss = .node ss.loc is := by
-  cases ss; exact ⟨_, rfl⟩
-
 /-- SELECTIONS (fields, fragment spreads, inline fragments), at any depth of any operation or fragment definition:
     the spanned text between `{ ` and `⏎}` is accepted by `parse` under the same flags, and the result is the shorthand
     query whose only selection is the node, moved to offset 2. -/
@@ -233,11 +227,6 @@ private theorem nameV_a (fl : Flags) (hnl : fl.noLocation = false) (l : Tok) (re
   rw [checkAll_cons]
   exact ⟨_, _, (check_tok ..).2 ⟨_, rfl, rfl, rfl⟩, by rw [checkAll_nil]⟩
 
-theorem wfDirective_weaken (c : Bool) (dir : Directive) (h : wfDirective c dir = true) : wfDirective false dir = true := by
-  simp only [wfDirective, List.all_eq_true] at h ⊢
-  intro x hx
-  exact wfValue_of_const c _ (h x hx)
-
 /-- DIRECTIVES (of fields, fragment spreads, inline fragments, operations, fragments, variable definitions and of every
     type-system position): the spanned text `@name(args)` put behind a field name, `{ a σ⏎}`, is accepted by `parse`
     under the same flags, and the result is the shorthand query `{ a @… }` whose field carries exactly that directive,
@@ -291,9 +280,6 @@ theorem span_reparse_directive (fl : Flags) (s : Text) (d : Document) (h : parse
     have := hck 4 tokA rest2
     rw [← hnode0, ← directiveV_up] at this
     exact this
-
-theorem wfArgument_weaken (c : Bool) (arg : Argument) (h : wfArgument c arg = true) : wfArgument false arg = true :=
-  wfValue_of_const c _ h
 
 /-- ARGUMENTS (of fields and of directives, at any depth): the spanned text `name: value` put inside the parentheses of a
     field, `{ a(σ⏎)}`, is accepted by `parse` under the same flags, and the result is the shorthand query `{ a(…) }` whose
